@@ -59,7 +59,7 @@ def repr_string(string: str, indent: int = 0, prefer_single_qoute: bool = False)
             # Backslashes can not be escaped in single line literals (\\n, \\' and \\" would be read as escape
             # sequences). Multi line literals are taken verbatim, so write the string as one, on a single line.
             for delimiter in (preferred_multiline_quote, secondary_multiline_quote):
-                if delimiter not in string and not string.endswith(delimiter[0]) and len(string.splitlines()) == 1:
+                if delimiter not in string and not string.endswith(delimiter[0]) and "\r" not in string:
                     return f"{delimiter}{string}{delimiter}"
         # Single line string
         return f"{preferred_quote}{escape_quotes(string, which_quotes=preferred_quote)}{preferred_quote}"
